@@ -746,3 +746,73 @@ def check_simplify_shapes(ctx, rep, f, rule='R-MODEL.M3'):
         return None
     rep.holds(rule, f, 'def ' + f.name, 'on all {} trees of depth <= 3 over 0, 1 and distinct letters the result is equal to the argument in Kleene algebra and not larger'.format(n))
     return n
+
+
+# ---- M4 by finite-model evaluation ------------------------------------------------------------------------------------------
+
+def check_rip_model(ctx, rep, f, rule='R-MODEL.M4'):
+    """gnfa_minimize, evaluated (analyser's own evaluator, the simplifier replaced by the identity) on a generalised NFA
+    with a start state, an accepting state and two inner states whose twelve edges carry twelve distinct letters (plus
+    a variant with missing edges): the expression left on the edge start -> accept must be equal, in Kleene algebra with the
+    letters as free variables, to the expression that the textbook elimination R1 . R2* . R3 + R4 gives -- in whichever
+    order the states are ripped.  All edges of the model are independent variables, so this is the general two-state case;
+    a rip step only combines the four edges around the ripped state.  Returns True when decided."""
+    import collections
+    from .. import shapes
+    from ..miniexec import Interp, Obj, Raised
+    from ..abseval import Unsupported as U2
+
+    classes = {'Zero': lambda: ('Zero',), 'One': lambda: ('One',), 'Symbol': lambda a: ('Symbol', a), 'Iteration': lambda x: ('Iteration', x),
+               'Sum': lambda x, y: ('Sum', x, y), 'Concat': lambda x, y: ('Concat', x, y)}
+
+    def reference(edges, inner):
+        d = dict(edges)
+        get = lambda i, j: d.get((i, j), ('Zero',))
+        rest = ['s', 't'] + list(inner)
+        for r in inner:
+            rest.remove(r)
+            nd = {}
+            for i in rest:
+                for j in rest:
+                    if i == 't' or j == 's':
+                        continue
+                    nd[i, j] = ('Sum', ('Concat', get(i, r), ('Concat', ('Iteration', get(r, r)), get(r, j))), get(i, j))
+            d = nd
+        return get('s', 't')
+    variants = []
+    letters = iter('abcdefghijklmnop')
+    full = {}
+    for i in ('s', 'p', 'q'):
+        for j in ('p', 'q', 't'):
+            full[i, j] = ('Symbol', next(letters))
+    variants.append(('all twelve edges', full, ['p', 'q']))
+    sparse = {k: v for k, v in full.items() if k not in (('s', 't'), ('p', 'p'), ('q', 'p'))}
+    variants.append(('no direct edge, no loop on p, no edge q -> p', sparse, ['p', 'q']))
+    variants.append(('one inner state', {k: v for k, v in full.items() if 'q' not in k}, ['p']))
+    bad = None
+    try:
+        for name, edges, inner in variants:
+            delta = collections.defaultdict(lambda: ('Zero',))
+            delta.update(edges)
+            G = Obj('GNFA', Q={'s', 't'} | set(inner), Sigma=set(), delta=delta, q_start='s', q_accept='t')
+            try:
+                Interp(ctx, stubs={'regexp_simplify': lambda it, a, k: a[0]}, classes=classes, max_steps=200000).call(f, [G])
+            except Raised as ex:
+                bad = 'on the model "{}" the elimination raises {}'.format(name, ex.name)
+                break
+            got = G._f['delta'].get(('s', 't'), ('Zero',)) if isinstance(G._f['delta'], dict) else None
+            if not (isinstance(got, tuple) and got and got[0] in shapes.ARITY):
+                raise U2('the edge start -> accept does not carry a regular expression')
+            want = reference(edges, inner)
+            if not ka.equivalent(shapes.ka_of(want), shapes.ka_of(got))[0]:
+                bad = 'on the model "{}" the expression left on start -> accept is {}, which is not equal to the elimination R1.R2*.R3 + R4 of the same automaton ({})'.format(
+                    name, ka.show(shapes.ka_of(got))[:160], ka.show(shapes.ka_of(want))[:160])
+                break
+    except (U2, Unsupported) as e:
+        rep.note('{}: finite-model evaluation not applicable ({})'.format(f.short, e))
+        return False
+    if bad:
+        rep.violates(rule, f, 'def ' + f.name, bad)
+    else:
+        rep.holds(rule, f, 'def ' + f.name, 'on generalised NFAs with up to two inner states and independent letters on every edge the remaining expression equals the textbook elimination in Kleene algebra')
+    return True
